@@ -1,0 +1,62 @@
+//go:build verif
+
+package jsonrpc
+
+import (
+	"sync/atomic"
+	"time"
+	"unsafe"
+
+	"github.com/gorilla/websocket"
+)
+
+// Verification hooks. Only compiled with `-tags verif`; nothing here changes
+// behaviour other than timing (a callback may sleep or signal another goroutine).
+
+type verifHookFn func(point string, server bool, conn uintptr)
+
+var verifHook atomic.Value // holds *verifHookFn
+
+// VerifSetHook installs (or, with nil, removes) the callback invoked at every
+// verifYield call site. server reports whether the connection belongs to an
+// RPCServer; conn identifies the connection (0 where no connection is known).
+func VerifSetHook(f func(point string, server bool, conn uintptr)) {
+	if f == nil {
+		verifHook.Store((*verifHookFn)(nil))
+		return
+	}
+	fn := verifHookFn(f)
+	verifHook.Store(&fn)
+}
+
+func verifYield(point string, c *wsConn) {
+	p, _ := verifHook.Load().(*verifHookFn)
+	if p == nil {
+		return
+	}
+	server := false
+	if c != nil {
+		_, server = c.handler.(*RPCServer)
+	}
+	(*p)(point, server, uintptr(unsafe.Pointer(c)))
+}
+
+// VerifWithConnFactoryWrapper sets the (already existing, unexported, "for
+// testing") Config.proxyConnFactory, which wraps every dial and redial of a
+// websocket client.
+func VerifWithConnFactoryWrapper(w func(func() (*websocket.Conn, error)) func() (*websocket.Conn, error)) Option {
+	return func(c *Config) {
+		c.proxyConnFactory = w
+	}
+}
+
+// VerifBackoffNext exposes backoff.next for direct property testing.
+func VerifBackoffNext(minDelay, maxDelay time.Duration, attempt int) time.Duration {
+	b := backoff{minDelay: minDelay, maxDelay: maxDelay}
+	return b.next(attempt)
+}
+
+// VerifNormalizeID exposes normalizeID for direct property testing.
+func VerifNormalizeID(id interface{}) (interface{}, error) {
+	return normalizeID(id)
+}
